@@ -31,13 +31,14 @@ FieldClause(s, i, n) ==
 Dropped(s, i) == {n \in Dom(s[i].f) : IsExp(s[i], n) /\ n \notin Dom(s[i].o)
                                        /\ ~(n \in ETPFields /\ ETPRemoved(s, i))}
 
+Units(e) == UNION {{<<k, i>> : i \in 1..Len(e.seqs[k])} : k \in 1..Len(e.seqs)}
 Failing(e) ==
-  {<<k, i, n, FieldClause(e.seqs[k], i, n)>> :
-       k \in 1..Len(e.seqs), i \in 1..Len(e.seqs[k]), n \in Dom(e.seqs[k][i].o)}
+  UNION {{<<x[1], x[2], n, FieldClause(e.seqs[x[1]], x[2], n)>> : n \in Dom(e.seqs[x[1]][x[2]].o)}
+         : x \in Units(e)}
 AlarmSet(e) ==
   {x \in Failing(e) : x[4] # "ok"}
-  \cup {<<k, i, n, "ExplicitDropped">> :
-         k \in 1..Len(e.seqs), i \in 1..Len(e.seqs[k]), n \in Dropped(e.seqs[k], i)}
+  \cup UNION {{<<x[1], x[2], n, "ExplicitDropped">> : n \in Dropped(e.seqs[x[1]], x[2])}
+             : x \in Units(e)}
 
 (* spec-only predictions: compared, logged, never an alarm (rule R1) *)
 Predicted(e) == \A k \in 1..Len(e.seqs) : SeqSerialisable(e.seqs[k])
